@@ -219,6 +219,26 @@ class LineFileSpec(Spec):
     def cleanup(self, impl):
         observe(impl.close)
 
+    def decoy(self):
+        """a second object of the same class, open on the same source file and already edited once: whatever is done
+        to the object under test must leave its view alone"""
+        old = getattr(self, "_decoy_obj", None)
+        if old is not None:
+            observe(old.close)
+        r = observe(self.codec.ctor, self.cls, self.src)
+        if r[0] != "ok":
+            return None
+        d = r[1]
+        if observe(d.open)[0] != "ok":
+            return None
+        self._decoy_obj = d
+        observe(d.reverse)
+
+        def view(x):
+            r_ = observe(lambda: [repr(v) for v in x])
+            return (r_, observe(len, x))
+        return d, view
+
     def ops(self, impl, model):
         n = len(model.vals)
         idx = list(range(-n - 1, n + 1))
